@@ -236,6 +236,8 @@ func (a *AccountData) EncodeRLP(w io.Writer) error {
 	for logType, record := range a.NewestRecords {
 		NewestRecords = append(NewestRecords, rlpVersionRecord{logType, record.Version, record.Height})
 	}
+	// map iteration order is random: write the records in log type order so that equal accounts have equal encodings
+	sort.Slice(NewestRecords, func(i, j int) bool { return NewestRecords[i].LogType < NewestRecords[j].LogType })
 
 	candidate := rlpCandidate{
 		Votes:   a.Candidate.Votes,
